@@ -30,6 +30,13 @@ def cases(tier, seed):
     return [{"seed": seed, "idx": i} for i in range(n)]
 
 
+def json_plain(o):
+    """tuples -> lists etc., the way a YAML round trip sees a dictionary"""
+    import yaml
+
+    return yaml.safe_load(yaml.safe_dump(o))
+
+
 def make_config(rng):
     import math
 
@@ -93,6 +100,9 @@ def make_config(rng):
     elif lk == "full_output":
         dom["full_output"] = True
     fk = str(rng.choice(["ustar", "z0", "both"]))
+    if closure == "MOST" and rng.random() < 0.25:
+        # the one-and-a-half order closure (driven by the friction velocity; its turbulent kinetic energy is left to the documented default)
+        closure, fk = "OAAHOC", "ustar"
     listy = ns > 1
 
     def series(lo, hi):
@@ -239,17 +249,49 @@ def run_case(case):
         p = os.path.join("site configs", f"c13_{case['idx']}.yaml")
         if where != "subfolder_relative":
             p = os.path.abspath(p)
+    merge = bool(case["idx"] % 5 == 3 and len(raw["towers"]) >= 1)
     with open(p, "w") as f:
-        yaml.safe_dump(raw, f)
-    if where == "pathlib":
-        import pathlib
+        if merge:
+            # the same content written the way people write such files by hand: shared values under an anchor, merged into the
+            # sections that use them (standard YAML 1.1 merge keys, which yaml.safe_load resolves)
+            dom_ = dict(raw["domain"])
+            shared = {k_: dom_.pop(k_) for k_ in ("nx", "ny", "nz")}
+            tw_ = [dict(t_) for t_ in raw["towers"]]
+            zshared = tw_[0]["z_m"]
+            text = "grid_defaults: &grid " + yaml.safe_dump(shared, default_flow_style=True).strip() + "\n"
+            text += "tower_defaults: &tdef {z_m: " + repr(float(zshared)) + "}\n"
+            doc = {k_: v_ for k_, v_ in raw.items() if k_ not in ("domain", "towers")}
+            text += yaml.safe_dump(doc)
+            text += "domain:\n  <<: *grid\n" + "".join("  " + l_ + "\n" for l_ in yaml.safe_dump(dom_).splitlines())
+            text += "towers:\n"
+            for t_ in tw_:
+                same_ = t_["z_m"] == zshared
+                body = {k_: v_ for k_, v_ in t_.items() if not (same_ and k_ == "z_m")}
+                lines_ = yaml.safe_dump(body).splitlines()
+                text += ("  - <<: *tdef\n" if same_ else "  - " + lines_.pop(0) + "\n") + "".join("    " + l_ + "\n" for l_ in lines_)
+            f.write(text)
+            counters["yaml_files_with_anchors_and_merge_keys"] = counters.get("yaml_files_with_anchors_and_merge_keys", 0) + 1
+        else:
+            yaml.safe_dump(raw, f)
+    if merge:
+        # (the hand-written text must say what the dictionary says - checked with the YAML library itself, not with the package)
+        chk_ = yaml.safe_load(open(p))
+        chk_.pop("grid_defaults", None), chk_.pop("tower_defaults", None)
+        if chk_ != json_plain(raw):
+            return {"harness_error": "hand-written YAML with merge keys does not reproduce the dictionary"}
+    try:
+        if where == "pathlib":
+            import pathlib
 
-        cfg_y = load_config(pathlib.Path(p))
-    else:
-        cfg_y = load_config(p)
+            cfg_y = load_config(pathlib.Path(p))
+        else:
+            cfg_y = load_config(p)
+    except Exception as ex_:  # noqa - the file says what the accepted dictionary says
+        cfg_y = None
+        viol.append({"what": "yaml_file_rejected_although_the_dictionary_is_accepted", "exc": f"{type(ex_).__name__}: {str(ex_)[:200]}", "merge_keys": merge, "where": where, "config": raw})
     os.unlink(p)
     counters["yaml_roundtrips"] += 1
-    if cfg_y != cfg_parsed:
+    if cfg_y is not None and cfg_y != cfg_parsed:
         viol.append({"what": "yaml_and_dict_parse_differently", "config": raw})
 
     # recording spies on the callables the interface module references
